@@ -3,7 +3,14 @@
 
 def run(ctx):
     ctx.level = "other"
-    ctx.extra["explanation"] = ("No deductive obligation yet: the tables are produced by pandas pipelines (explode / groupby / concat) whose semantics are outside the engine. "
+    from contracts import c12_tables as K
+    from pyvc.source import Repo
+
+    K.verify_all(ctx, Repo(), "C12")
+    ctx.trust("pandas (DataFrame, sort_values, explode, groupby, concat, to_csv) and the clustered branch of get_labels_table / get_clone_table are outside the contracts (bounded stand-in only)")
+    ctx.assume("A-NAMES: data point names are unique and data[i].idx == i (established by the loader, C17)")
+    ctx.extra["explanation"] = ("Deductive (any number of data points, any labelling): the unclustered branch of get_labels_table hands pandas one record (name, clone) per labelled point and one "
+                                "(name, outlier node) record per input point whose name is not among the labelled ones, nothing else, sorted by clone and mutation. The rest of the tables is produced by pandas pipelines (explode / groupby / concat) whose semantics are outside the engine. "
                                 "Bounded stand-in: the three real commands on traces holding every tree over <= 3 data points (including all-outlier trees), clustered and "
                                 "unclustered, 1-2 samples; every output table and Newick tree is parsed back and checked against the property clause by clause.")
     from bounded import commands as BC
